@@ -414,8 +414,10 @@ def collectIter (next : Nat → M (Option Nat)) (fuel : Nat) : String :=
       | .error e => "F:" ++ e.tag
   go fuel 0 []
 
-def handleQ (st : St) (k : Nat) (q : String) (args : List String) : String :=
+partial def handleQ (st : St) (k : Nat) (q : String) (args : List String) : String :=
   let a (i : Nat) : Nat := nat! (args.getD i "0")
+  -- `<op>_pair`: checked method + (when it answers Some) its unchecked twin; the answer is the checked one
+  if q.endsWith "_pair" then handleQ st k ((q.dropEnd 5).toString) args else
   -- `Debug::fmt` must not panic; its text is not modelled
   if q == "debug" then
     (match getSlot st k with
